@@ -56,8 +56,9 @@ Classify(o, ref, dflt) ==
   ELSE IF IsPerm(o.items, ref) THEN "C18.order"
   ELSE dflt
 
-Fail(dec, clause, rel, err, kinds, field, cuts) ==
-  [dec |-> dec, clause |-> clause, rel |-> rel, err |-> err, kinds |-> kinds, field |-> field, cuts |-> cuts]
+\* exp: the reference the output was compared with (items of the unsplit run, or the whole-stream meaning)
+Fail(dec, clause, rel, err, kinds, field, cuts, exp) ==
+  [dec |-> dec, clause |-> clause, rel |-> rel, err |-> err, kinds |-> kinds, field |-> field, cuts |-> cuts, exp |-> exp]
 
 JudgeDec(t, K, d) ==
   LET ch == t.chunkings
@@ -66,30 +67,37 @@ JudgeDec(t, K, d) ==
       u == d.idx[r0]
       U == d.outs[u]
       M == Meanings(d.name, t.mode, t.bytes)
-      E == Events(t.bytes)
-      ref == IF d.name = "iter_sse" THEN E ELSE CHOOSE m \in M : TRUE
+      ref == IF d.name = "iter_sse" THEN Events(t.bytes) ELSE CHOOSE m \in M : TRUE
       used == {d.idx[r] : r \in 1..N}
       first(k) == CHOOSE r \in 1..N : d.idx[r] = k /\ \A q \in 1..(r - 1) : d.idx[q] # k
       kindsOf(r) == {K[ch[r][i]] : i \in 1..Len(ch[r])}
       specOK(o) == o.err = "none" /\ o.items \in M
   IN
   IF d.name = "iter_bytes"
-  THEN {Fail(d.name, "C18.bytes_concat", "spec", d.outs[k].err, kindsOf(first(k)), "concat", ch[first(k)])
-          : k \in {j \in used : ~specOK(d.outs[j])}}
+  THEN \* one failure per stream: the first chunking (fewest cuts) whose concatenation is not the input
+       LET bad == {r \in 1..N : ~specOK(d.outs[d.idx[r]])} IN
+       IF bad = {} THEN {}
+       ELSE LET r == CHOOSE x \in bad : \A y \in bad : x <= y
+                o == d.outs[d.idx[r]]
+                got == IF Len(o.items) = 1 THEN Len(o.items[1]) ELSE -1
+            IN {Fail(d.name, "C18.bytes_concat", "spec", o.err, {},
+                     IF got < Len(t.bytes) THEN "shorter" ELSE IF got > Len(t.bytes) THEN "longer" ELSE "altered",
+                     ch[r], ref)}
   ELSE
     {Fail(d.name, Classify(d.outs[k], U.items, "C18.differs_from_unsplit"), "unsplit", d.outs[k].err,
-          kindsOf(first(k)), "none", ch[first(k)])
+          kindsOf(first(k)), "none", ch[first(k)], U.items)
        : k \in {j \in used : d.outs[j] # U}}
     \cup
     (IF specOK(U) THEN {}
      ELSE {Fail(d.name, Classify(U, ref, "C18.differs_from_spec"), "spec", U.err, {},
-                IF U.err # "none" THEN "error" ELSE DiffField(d.name, U.items, ref), <<>>)})
+                IF U.err # "none" THEN "error" ELSE DiffField(d.name, U.items, ref), <<>>, ref)})
 
 Verdict(t) ==
   LET K == CutKinds(t.mode, t.bytes)
       ch == t.chunkings
       N == Len(ch)
-      fails == UNION {JudgeDec(t, K, t.dec[i]) : i \in 1..Len(t.dec)}
+      \* one set of failures per helper (kept apart: items of different helpers have different shapes)
+      fails == [i \in 1..Len(t.dec) |-> JudgeDec(t, K, t.dec[i])]
       inner == Cardinality({r \in 1..N : \E i \in 1..Len(ch[r]) : K[ch[r][i]] # "at_rest"})
       byKind == [k \in KindNames |-> Cardinality({r \in 1..N : \E i \in 1..Len(ch[r]) : K[ch[r][i]] = k})]
   IN [id |-> t.id,
